@@ -1193,4 +1193,8 @@ func main() {
 
 	// hybrid/subtle directly: every curve GetCurve admits (P-224 included) x every point format (subtle.go)
 	runSubtle(e, seed)
+	// HKDF salt length x hash grid and special salt values, both API levels (salts.go)
+	runSalts(e, seed)
+	// keysets in which a RAW key's ciphertext starts with another member's output prefix (collide.go)
+	runCollide(e, seed)
 }
